@@ -6,6 +6,8 @@ CONSTANTS W = 3
           Music = 0
           MaxHist = 2
           Slice = "huge"
+          MaxMacroExpansion <- SmallExpansion
+          MaxMacroSize <- SmallMacroSize
 INVARIANT InScreen
 INVARIANT Sane
 PROPERTY GrowthBounded
